@@ -373,7 +373,281 @@ theorem trace_eq_algebra_trace (M : Modulus h32 n g) (hq : p ^ n < 2 ^ 64) {a : 
 
 end Field
 
+/-! ### 5. `inv`: extended Euclid with monic renormalisation -/
+
+omit [Fact (Nat.Prime p)] in
+theorem invLoop_succ (fuel : Nat) (r0 r1 i0 i1 : UPoly Nat) :
+    Ext.invLoop p g (fuel + 1) r0 r1 i0 i1 =
+      match UPoly.quoRemLoop (primeOps p) [r1] (UPoly.quoRemFuel r0) r0 [UPoly.zero (primeOps p)]
+          (UPoly.zero (primeOps p)) with
+      | none => i1
+      | some (quo, rem) =>
+        if UPoly.isZero (primeOps p) rem then i1
+        else
+          Ext.invLoop p g fuel r1
+            (UPoly.scale (primeOps p) rem
+              (((primeOps p).inv (UPoly.lc (primeOps p) rem)).getD 0)) i1
+            (UPoly.scale (primeOps p)
+              (UPoly.sub (primeOps p) i0
+                (Ext.unwrap (UPoly.times (Ext.ring p g) (quo.headD (UPoly.zero (primeOps p))) i1)))
+              (((primeOps p).inv (UPoly.lc (primeOps p) rem)).getD 0)) := rfl
+
+/-- one-step data of the loop: the inverse of the leading coefficient of a nonzero polynomial -/
+theorem lcInv_spec {f : UPoly Nat} (hf : WF (PL h32) f) (h0 : toPoly (PL h32) f ≠ 0) :
+    ∃ li, (primeOps p).inv (UPoly.lc (primeOps p) f) = some li ∧ li < p ∧
+      ((li : ℕ) : ZMod p) = ((toPoly (PL h32) f).leadingCoeff)⁻¹ ∧
+      ((li : ℕ) : ZMod p) ≠ 0 := by
+  have hlc : (PL h32).embed (UPoly.lc (primeOps p) f) ≠ 0 := by
+    rw [embed_lc (PL h32) hf]; exact leadingCoeff_ne_zero.2 h0
+  obtain ⟨li, h1, h2, h3⟩ := (PL h32).inv_some _ (lc_valid (PL h32) hf.1) hlc
+  rw [embed_lc (PL h32) hf] at h3
+  refine ⟨li, h1, h2, h3, ?_⟩
+  have : ((li : ℕ) : ZMod p) = ((toPoly (PL h32) f).leadingCoeff)⁻¹ := h3
+  rw [this]
+  exact inv_ne_zero (leadingCoeff_ne_zero.2 h0)
+
+/-- Invariant of the Euclid loop of `Inv`: `r1` monic, `i_k · x ≡ r_k (mod g)`, `(r0, r1)` coprime,
+    and the fuel exceeds `deg r1`.  Then the loop ends with `r1 = 1` and returns the inverse. -/
+theorem invLoop_spec (M : Modulus h32 n g) (x : AdjoinRoot (toPoly (PL h32) g)) (fuel : Nat) :
+    ∀ r0 r1 i0 i1 : UPoly Nat,
+      WF (PL h32) r0 → WF (PL h32) r1 → (toPoly (PL h32) r1).Monic →
+      Valid h32 n i0 → Valid h32 n i1 →
+      emb h32 g i0 * x = emb h32 g r0 → emb h32 g i1 * x = emb h32 g r1 →
+      IsCoprime (toPoly (PL h32) r0) (toPoly (PL h32) r1) →
+      (toPoly (PL h32) r1).natDegree < fuel →
+      Valid h32 n (Ext.invLoop p g fuel r0 r1 i0 i1) ∧
+        emb h32 g (Ext.invLoop p g fuel r0 r1 i0 i1) * x = 1 := by
+  induction fuel with
+  | zero => intro r0 r1 i0 i1 _ _ _ _ _ _ _ _ hf; omega
+  | succ fuel ih =>
+    intro r0 r1 i0 i1 h0 h1 hmon hi0 hi1 e0 e1 hcop hfuel
+    have hne : toPoly (PL h32) r1 ≠ 0 := hmon.ne_zero
+    have hgs : ∀ f ∈ [r1], WF (PL h32) f ∧ toPoly (PL h32) f ≠ 0 := by
+      intro f hf; rw [List.mem_singleton] at hf; subst hf; exact ⟨h1, hne⟩
+    obtain ⟨qs, rem, hq⟩ := quoRemLoop_total (PL h32) hgs h0 (quoRemFuel r0)
+      (by unfold quoRemFuel; omega)
+    have hq' : quoRemLoop (primeOps p) [r1] (quoRemFuel r0) r0 [zero (primeOps p)]
+        (zero (primeOps p)) = some (qs, rem) := hq
+    obtain ⟨q, hqs, hqw, hremw, eq, erem⟩ := quoRemLoop_single (PL h32) h0 h1 hne hq'
+    subst hqs
+    rw [invLoop_succ, hq']
+    simp only [List.headD_cons]
+    split
+    · next hz =>
+      -- the remainder vanishes: `r1 ∣ r0`, so the monic `r1` is the gcd `1`
+      have hrem0 : toPoly (PL h32) rem = 0 := (UPoly.isZero_iff (PL h32) hremw).1 hz
+      have hdvd : toPoly (PL h32) r1 ∣ toPoly (PL h32) r0 := by
+        rw [← EuclideanDomain.mod_eq_zero, ← erem, hrem0]
+      have hunit : IsUnit (toPoly (PL h32) r1) := hcop.isUnit_of_dvd' hdvd dvd_rfl
+      have hone : toPoly (PL h32) r1 = 1 := hmon.eq_one_of_isUnit hunit
+      refine ⟨hi1, ?_⟩
+      rw [e1]; unfold emb; rw [hone, map_one]
+    · next hz =>
+      have hrem0 : toPoly (PL h32) rem ≠ 0 := fun h => hz ((UPoly.isZero_iff (PL h32) hremw).2 h)
+      obtain ⟨li, hli, hliv, hlie, hli0⟩ := lcInv_spec hremw hrem0
+      rw [hli, Option.getD_some]
+      have hliv' : (PL h32).valid li := hliv
+      have hlie' : (PL h32).embed li = ((toPoly (PL h32) rem).leadingCoeff)⁻¹ := hlie
+      have hli0' : (PL h32).embed li ≠ 0 := hli0
+      -- new remainder
+      have hr1'w := scale_wf (PL h32) hremw hliv'
+      have hr1'e := toPoly_scale (PL h32) hremw.1 hliv'
+      have hr1'mon : (toPoly (PL h32) (scale (primeOps p) rem li)).Monic := by
+        rw [hr1'e, Monic, leadingCoeff_mul, leadingCoeff_C, hlie',
+          inv_mul_cancel₀ (leadingCoeff_ne_zero.2 hrem0)]
+      -- new cofactor
+      obtain ⟨htv, hte⟩ := times_unwrap M hqw.1 hi1.1.1
+      obtain ⟨hsv, hse⟩ := sub_spec M hi0 htv
+      have hi1'w := scale_wf (PL h32) hsv.1 hliv'
+      have hi1'e := toPoly_scale (PL h32) hsv.1.1 hliv'
+      have hi1'v : Valid h32 n (scale (primeOps p) (UPoly.sub (primeOps p) i0
+          (Ext.unwrap (times (Ext.ring p g) q i1))) li) := by
+        apply valid_of_degree_lt M hi1'w
+        rw [hi1'e, degree_C_mul hli0']
+        exact hsv.degree_lt M
+      have hmod : toPoly (PL h32) rem =
+          toPoly (PL h32) r0 - toPoly (PL h32) r1 * toPoly (PL h32) q := by
+        rw [erem, eq, EuclideanDomain.mod_eq_sub_mul_div]
+      apply ih _ _ _ _ h1 hr1'w hr1'mon hi1 hi1'v e1
+      · -- (c·(i0 - q·i1))·x = c·(r0 - q·r1) = c·rem
+        have ec : emb h32 g (scale (primeOps p) (UPoly.sub (primeOps p) i0
+            (Ext.unwrap (times (Ext.ring p g) q i1))) li) =
+            AdjoinRoot.mk (toPoly (PL h32) g) (C ((PL h32).embed li)) *
+              (emb h32 g i0 - emb h32 g q * emb h32 g i1) := by
+          rw [← hte, ← hse]; unfold emb; rw [hi1'e, map_mul]
+        have er : emb h32 g (scale (primeOps p) rem li) =
+            AdjoinRoot.mk (toPoly (PL h32) g) (C ((PL h32).embed li)) *
+              (emb h32 g r0 - emb h32 g r1 * emb h32 g q) := by
+          unfold emb; rw [hr1'e, hmod, map_mul, map_sub, map_mul]
+        rw [ec, er, ← e0, ← e1]
+        ring
+      · rw [hr1'e, isCoprime_mul_unit_left_right (isUnit_C.2 (IsUnit.mk0 _ hli0')), hmod]
+        have := (hcop.add_mul_left_left (-toPoly (PL h32) q)).symm
+        rwa [mul_neg, ← sub_eq_add_neg] at this
+      · rw [hr1'e, natDegree_C_mul hli0']
+        have hlt : (toPoly (PL h32) rem).degree < (toPoly (PL h32) r1).degree := by
+          rw [erem]; exact degree_mod_lt _ hne
+        have := natDegree_lt_natDegree hrem0 hlt
+        omega
+
+theorem inv_zero (M : Modulus h32 n g) {a : UPoly Nat} (ha : Valid h32 n a)
+    (h0 : emb h32 g a = 0) : Ext.inv p g a = none := by
+  unfold Ext.inv
+  simp only []
+  rw [if_pos ((isZero_iff_emb M ha).2 h0)]
+
+/-- `Inv` returns the inverse of every nonzero element (`g` irreducible) -/
+theorem inv_spec (M : Modulus h32 n g) (hirr : Irreducible (toPoly (PL h32) g)) {a : UPoly Nat}
+    (ha : Valid h32 n a) (h0 : emb h32 g a ≠ 0) :
+    ∃ i, Ext.inv p g a = some i ∧ Valid h32 n i ∧ emb h32 g i * emb h32 g a = 1 := by
+  unfold Ext.inv
+  simp only []
+  rw [if_neg (fun h => h0 ((isZero_iff_emb M ha).1 h))]
+  by_cases h1 : UPoly.isOne (primeOps p) a = true
+  · rw [if_pos h1]
+    have := (isOne_iff_emb M ha).1 h1
+    exact ⟨a, rfl, ha, by rw [this, one_mul]⟩
+  · rw [if_neg h1]
+    refine ⟨_, rfl, ?_⟩
+    have ha0 : toPoly (PL h32) a ≠ 0 := fun h => h0 ((emb_eq_zero_iff M ha).2 h)
+    obtain ⟨li, hli, hliv, hlie, hli0⟩ := lcInv_spec ha.1 ha0
+    rw [hli, Option.getD_some]
+    have hliv' : (PL h32).valid li := hliv
+    have hlie' : (PL h32).embed li = ((toPoly (PL h32) a).leadingCoeff)⁻¹ := hlie
+    have hli0' : (PL h32).embed li ≠ 0 := hli0
+    obtain ⟨hr0w, hr0e⟩ := normalize_spec (PL h32) M.wf
+    rw [M.monic.leadingCoeff, inv_one, C_1, one_mul] at hr0e
+    obtain ⟨hr1w, hr1e⟩ := normalize_spec (PL h32) ha.1
+    have hr1mon := normalize_monic (PL h32) ha.1 ha0
+    obtain ⟨hi1v, hi1e⟩ := ofCoefs_singleton M hliv
+    have hc0 : (C ((toPoly (PL h32) a).leadingCoeff)⁻¹ : (ZMod p)[X]) ≠ 0 := by
+      rw [Ne, C_eq_zero]; exact inv_ne_zero (leadingCoeff_ne_zero.2 ha0)
+    apply invLoop_spec M (emb h32 g a) (g.length + 2) _ _ _ _ hr0w hr1w hr1mon (valid_zero M) hi1v
+    · rw [emb_zero, zero_mul]; unfold emb; rw [hr0e, AdjoinRoot.mk_self]
+    · rw [hi1e]; unfold emb
+      rw [hr1e, map_mul, AdjoinRoot.mk_C]
+      congr 2
+    · rw [hr0e, hr1e, hirr.coprime_iff_not_dvd]
+      apply M.monic.not_dvd_of_degree_lt (mul_ne_zero hc0 ha0)
+      rw [degree_C_mul (inv_ne_zero (leadingCoeff_ne_zero.2 ha0))]
+      exact ha.degree_lt M
+    · rw [hr1e, natDegree_C_mul (inv_ne_zero (leadingCoeff_ne_zero.2 ha0)), M.length_eq]
+      have := length_eq_natDegree_succ (PL h32) ha.1
+      have := ha.2
+      omega
+
+/-! ### 7. the `Lawful` instance -/
+
+section Lawful
+variable [hirr : Fact (Irreducible (toPoly (PL h32) g))]
+
+/-- `extOps p n g` implements the field `F_p[X]/(g)` on the reduced well-formed lists. -/
+noncomputable def extLawful (M : Modulus h32 n g) :
+    Lawful (extOps p n g) (AdjoinRoot (toPoly (PL h32) g)) where
+  embed := emb h32 g
+  valid := Valid h32 n
+  inj := fun _ _ ha hb h => emb_injective M ha hb h
+  zero_valid := valid_zero M
+  one_valid := valid_one M
+  embed_zero := emb_zero
+  embed_one := emb_one
+  add_valid := fun _ _ ha hb => (add_spec M ha hb).1
+  embed_add := fun _ _ ha hb => (add_spec M ha hb).2
+  sub_valid := fun _ _ ha hb => (sub_spec M ha hb).1
+  embed_sub := fun _ _ ha hb => (sub_spec M ha hb).2
+  mul_valid := fun _ _ ha hb => (mul_spec M ha hb).1
+  embed_mul := fun _ _ ha hb => (mul_spec M ha hb).2
+  neg_valid := fun _ ha => (neg_spec M ha).1
+  embed_neg := fun _ ha => (neg_spec M ha).2
+  inv_some := fun a ha h0 => by
+    obtain ⟨i, h1, h2, h3⟩ := inv_spec M hirr.out ha h0
+    exact ⟨i, h1, h2, eq_inv_of_mul_eq_one_left h3⟩
+  inv_none := fun _ ha h0 => inv_zero M ha h0
+  isZero_iff := fun _ ha => isZero_iff_emb M ha
+  isOne_iff := fun _ ha => isOne_iff_emb M ha
+  beq_iff := fun _ _ ha hb => equal_iff_eq (PL h32) ha.1.1 hb.1.1
+
+end Lawful
+
 end Setting
+
+/-! ### 8. the log table (C18): products and inverses through discrete logarithms -/
+
+section Log
+variable {G : Type*} [Monoid G]
+
+/-- `invLog[(log x + log y) mod (q-1)] = x·y` for `invLog[i] = γ^i` -/
+theorem log_mul {γ : G} {N : Nat} (hγ : orderOf γ = N) (s t : Nat) :
+    γ ^ ((s + t) % N) = γ ^ s * γ ^ t := by
+  rw [← hγ, pow_mod_orderOf, pow_add]
+
+/-- `invLog[q-1-log x] = x⁻¹` -/
+theorem log_inv {γ : G} {N : Nat} (hγ : orderOf γ = N) {s : Nat} (hs : s ≤ N) :
+    γ ^ (N - s) * γ ^ s = 1 := by
+  rw [← pow_add, Nat.sub_add_cancel hs, ← hγ, pow_orderOf_eq_one]
+
+/-- every nonzero element of a finite field has a discrete logarithm to a primitive base -/
+theorem log_exists {K : Type*} [Field K] [Fintype K] {γ : K}
+    (hγ : orderOf γ = Fintype.card K - 1) {x : K} (hx : x ≠ 0) :
+    ∃ s, s < Fintype.card K - 1 ∧ γ ^ s = x := by
+  classical
+  have hcard : 1 < Fintype.card K := Fintype.one_lt_card
+  have hγ0 : γ ≠ 0 := by
+    rintro rfl
+    have h1 : (0 : K) ^ orderOf (0 : K) = 1 := pow_orderOf_eq_one 0
+    rw [hγ, zero_pow (by omega)] at h1
+    exact zero_ne_one h1
+  let u : Kˣ := Units.mk0 γ hγ0
+  have hu : orderOf u = Fintype.card Kˣ := by
+    rw [← orderOf_units, Units.val_mk0, hγ, Fintype.card_units]
+  have htop : Subgroup.zpowers u = ⊤ := by
+    rw [← Subgroup.card_eq_iff_eq_top, Nat.card_zpowers, hu, Nat.card_eq_fintype_card]
+  have hmem : Units.mk0 x hx ∈ Subgroup.zpowers u := htop ▸ Subgroup.mem_top _
+  rw [← mem_powers_iff_mem_zpowers] at hmem
+  obtain ⟨k, hk'⟩ := hmem
+  have hk : γ ^ k = x := by
+    have := congrArg Units.val hk'
+    simpa [u] using this
+  refine ⟨k % (Fintype.card K - 1), Nat.mod_lt _ (by omega), ?_⟩
+  rw [← hγ, pow_mod_orderOf]
+  exact hk
+
+end Log
+
+/-! ### a concrete field for non-vacuity: GF(9) = F_3[a]/(a² + 2a + 2) (the Conway polynomial) -/
+
+section GF9
+
+theorem h32_three : 3 - 1 < 2 ^ 32 := by norm_num
+
+theorem toPoly_gf9 : toPoly (PL h32_three) [2, 2, 1] = X ^ 2 + (C 2 * X + C 2) := by
+  simp only [toPoly_cons, toPoly_nil, primeLawfulFact_embed]
+  simp only [Nat.cast_ofNat, Nat.cast_one, map_one]
+  ring
+
+theorem gf9_modulus : Modulus h32_three 2 [2, 2, 1] where
+  wf := ⟨by decide, by unfold Canon; decide⟩
+  monic := by
+    rw [toPoly_gf9]
+    exact monic_X_pow_add (lt_of_le_of_lt degree_linear_le (by decide))
+  deg := by
+    rw [toPoly_gf9]
+    exact natDegree_X_pow_add (lt_of_le_of_lt degree_linear_le (by decide))
+  npos := by decide
+
+/-- `a² + 2a + 2` has no root in GF(3), hence is irreducible -/
+theorem gf9_irreducible : Irreducible (toPoly (PL h32_three) [2, 2, 1]) := by
+  apply irreducible_of_degree_le_three_of_not_isRoot
+  · rw [gf9_modulus.deg]; decide
+  · intro x
+    rw [toPoly_gf9, IsRoot.def]
+    simp only [eval_add, eval_mul, eval_pow, eval_X, eval_C]
+    revert x; decide
+
+theorem gf9_valid {a : UPoly Nat} (h1 : ∀ c ∈ a, c < 3) (h2 : Canon (primeOps 3) a)
+    (h3 : a.length ≤ 2) : Valid h32_three 2 a := ⟨⟨h1, h2⟩, h3⟩
+
+end GF9
 
 end ExtField
 end Algobra
